@@ -66,7 +66,7 @@ def main():
             n += 1
             f = tgt.check(inp)
             if getattr(tgt, "nontrivial", None) and tgt.nontrivial(inp):
-                nontrivial += 1
+                nontrivial += 1          # measured after the check (targets may mark skipped cases trivial)
             if f is not None:
                 kl = f.get("klass")
                 if kl in seen_classes:
